@@ -192,10 +192,14 @@ def summarize_offer(task):
 
 
 class Sim(object):
+    # When True the composed graph is part of every snapshot (and of the state identity), so that
+    # in-memory sharing between execution records and graph nodes survives snapshots (C05).
+    SNAP_GRAPH = False
+
     def __init__(self, scn):
         self.scn = scn
         self.c = conducting.WorkflowConductor(scn.spec, inputs=copy.deepcopy(scn.inputs))
-        self.c._graph = scn.graph
+        self.c._graph = pickle.loads(pickle.dumps(scn.graph)) if Sim.SNAP_GRAPH else scn.graph
         self.h = {
             "started": False,
             "inflight": [],  # [task, route, item] in launch order
@@ -235,11 +239,18 @@ class Sim(object):
         )
 
     def snapshot(self):
+        if Sim.SNAP_GRAPH:
+            return pickle.dumps((self._parts(), self.h, self.budget, self.ghost, self.c._graph), protocol=4)
         return pickle.dumps((self._parts(), self.h, self.budget, self.ghost), protocol=4)
 
     @classmethod
     def restore(cls, scn, snap):
-        parts, h, budget, ghost = pickle.loads(snap)
+        loaded = pickle.loads(snap)
+        graph = scn.graph
+        if len(loaded) == 5:
+            parts, h, budget, ghost, graph = loaded
+        else:
+            parts, h, budget, ghost = loaded
         sim = cls.__new__(cls)
         sim.scn = scn
         sim.h = h
@@ -247,7 +258,7 @@ class Sim(object):
         sim.ghost = ghost
         c = conducting.WorkflowConductor(scn.spec, inputs=copy.deepcopy(scn.inputs))
         if parts is None:
-            c._graph = scn.graph
+            c._graph = graph
         else:
             ws = conducting.WorkflowState()
             (
@@ -262,7 +273,7 @@ class Sim(object):
                 log,
                 outputs,
             ) = parts
-            c.restore(scn.graph, log, errors, ws, copy.deepcopy(scn.inputs), outputs, None)
+            c.restore(graph, log, errors, ws, copy.deepcopy(scn.inputs), outputs, None)
             # restore() replaces falsy containers; keep the exact objects.
             c._errors = errors
             c._log = log
@@ -277,6 +288,8 @@ class Sim(object):
         hh.pop("steps", None)
         out.append(json.dumps(hh, sort_keys=True, default=repr))
         out.append(json.dumps(_public(self.ghost), sort_keys=True, default=repr))
+        if Sim.SNAP_GRAPH and self.c._graph is not None:
+            out.append(json.dumps(self.c._graph.serialize(), sort_keys=True, default=repr))
         if with_budget:
             out.append(json.dumps(self.budget, sort_keys=True))
         return "".join(out)
@@ -540,6 +553,8 @@ class Sim(object):
 
     def _crash(self, res):
         res.calls += 2
+        if not self.h["started"]:
+            self.h["crashed_before_start"] = True
         data = self.c.serialize()
         self.c = conducting.WorkflowConductor.deserialize(data)
 
